@@ -130,18 +130,27 @@ Section J.
       cbn [andb]. eapply IH. reflexivity.
   Qed.
 
-  (* whenever no error ends either direction, reverse = forward reversed *)
-  Lemma spec_mirrored ie c fo fe ro re_ :
-    jsonl_forward_spec loads ws ie c = (fo, fe) -> jsonl_reverse_spec loads ws ie c = (ro, re_) ->
+  (* whenever no error ends either direction, reverse = forward reversed: for any list of lines *)
+  Lemma lines_mirrored ie L fo fe ro re_ :
+    jsonl_objects loads ws ie L = (fo, fe) -> jsonl_objects loads ws ie (rev L) = (ro, re_) ->
     (fe = false -> re_ = false /\ ro = rev fo) /\ (ie = true -> fe = false).
   Proof.
     intros F R. split.
     - intros ->.
-      assert (D : ie = true \/ forallb (line_ok loads ws) (file_lines c) = true).
+      assert (D : ie = true \/ forallb (line_ok loads ws) L = true).
       { destruct ie; [left; reflexivity|right]. eapply no_error_all_ok. exact F. }
-      destruct (spec_mirror loads ws ie c D) as [M _]. rewrite R, F in M. cbn [fst] in M. inversion M. split; reflexivity.
-    - intros ->. destruct (spec_mirror loads ws true c (or_introl eq_refl)) as [_ M]. rewrite F in M. exact M.
+      rewrite (objects_total loads ws ie L D) in F.
+      assert (D' : ie = true \/ forallb (line_ok loads ws) (rev L) = true).
+      { destruct D as [D|D]; [left; exact D|right]. rewrite forallb_forall in *. intros l I. apply D. apply in_rev. exact I. }
+      rewrite (objects_total loads ws ie (rev L) D'), flat_map_rev_small in R.
+      inversion F. inversion R. subst. split; reflexivity.
+    - intros ->. rewrite (objects_total loads ws true L (or_introl eq_refl)) in F. inversion F. reflexivity.
   Qed.
+
+  Lemma spec_mirrored ie c fo fe ro re_ :
+    jsonl_forward_spec loads ws ie c = (fo, fe) -> jsonl_reverse_spec loads ws ie c = (ro, re_) ->
+    (fe = false -> re_ = false /\ ro = rev fo) /\ (ie = true -> fe = false).
+  Proof. apply lines_mirrored. Qed.
 End J.
 
 Lemma mirrored_of_spec (loads : text -> option jval) ws ie c :
@@ -153,6 +162,27 @@ Proof.
   unfold jsonl_mirrored. destruct fe.
   - destruct ie; [specialize (B eq_refl); discriminate|reflexivity].
   - destruct (A eq_refl) as [-> ->]. apply (list_eqb_eq jval_eqb jval_eqb_eq). reflexivity.
+Qed.
+
+Lemma mirrored_of_lines (loads : text -> option jval) ws ie L :
+  jsonl_mirrored ie (Ok (jsonl_objects loads ws ie L)) (Ok (jsonl_objects loads ws ie (rev L))) = true.
+Proof.
+  destruct (jsonl_objects loads ws ie L) as [fo fe] eqn:F.
+  destruct (jsonl_objects loads ws ie (rev L)) as [ro re_] eqn:R.
+  destruct (lines_mirrored loads ws ie L fo fe ro re_ F R) as [A B].
+  unfold jsonl_mirrored. destruct fe.
+  - destruct ie; [specialize (B eq_refl); discriminate|reflexivity].
+  - destruct (A eq_refl) as [-> ->]. apply (list_eqb_eq jval_eqb jval_eqb_eq). reflexivity.
+Qed.
+
+(* text modes: what the model yields forward / in reverse for the text t, mirrored for every t *)
+Lemma text_mirrored ie t :
+  jsonl_mirrored ie (Ok (jsonl_next_all mini_loads is_ws_str ie (file_iter_text t)))
+                    (Ok (jsonl_next_all mini_loads is_ws_str ie (ril_tail t))) = true.
+Proof.
+  rewrite !next_all_eq.
+  pose proof (forward_text_universal mini_loads is_ws_str eq_refl mini_loads_lf ie t []) as F.
+  rewrite !glue_nil in F. rewrite F, objects_ril_tail. apply mirrored_of_lines.
 Qed.
 
 Lemma jsonl_spec_on_sound (loads : text -> option jval) ws ie t :
@@ -176,15 +206,23 @@ Proof.
     rewrite (jsonl_binary_forward mini_loads mini_bytes_lf mini_bytes_crlf c ie D).
     rewrite (jsonl_binary_reverse mini_loads c ie D). apply jsonl_spec_on_sound.
   - destruct (utf8_decode c) as [t|] eqn:U; [|reflexivity].
-    destruct (no_lone_cr t) eqn:D; [|apply jsonl_spec_on_outside; exact D].
-    destruct (decode_sound c t U) as [En Sc]. rewrite <- En.
-    rewrite (jsonl_text_forward mini_loads mini_loads_lf t ie Sc D).
-    rewrite (jsonl_text_reverse mini_loads t ie Sc D). apply jsonl_spec_on_sound.
-  - destruct (no_lone_cr c) eqn:D; [|apply jsonl_spec_on_outside; exact D].
-    destruct (jsonl_latin1 mini_loads mini_loads_lf c ie D) as [F R]. rewrite F, R. apply jsonl_spec_on_sound.
+    destruct (decode_sound c t U) as [En Sc]. apply andb_true_iff. split.
+    + cbn [jsonl_iter]. rewrite U. rewrite <- En at 1 2.
+      rewrite reverse_text_all; [|unfold jsonl_blocksize; lia|exact Sc]. apply text_mirrored.
+    + destruct (no_lone_cr t) eqn:D; [|apply jsonl_spec_on_outside; exact D].
+      rewrite <- En.
+      rewrite (jsonl_text_forward mini_loads mini_loads_lf t ie Sc D).
+      rewrite (jsonl_text_reverse mini_loads t ie Sc D). apply jsonl_spec_on_sound.
+  - apply andb_true_iff. split.
+    + cbn [jsonl_iter]. rewrite reverse_latin1_all by (unfold jsonl_blocksize; lia). apply text_mirrored.
+    + destruct (no_lone_cr c) eqn:D; [|apply jsonl_spec_on_outside; exact D].
+      destruct (jsonl_latin1 mini_loads mini_loads_lf c ie D) as [F R]. rewrite F, R. apply jsonl_spec_on_sound.
   - cbn [mode_ok] in MO. destruct (sb_decode tbl c) as [t|] eqn:U; [|reflexivity].
-    destruct (no_lone_cr t) eqn:D; [|apply jsonl_spec_on_outside; exact D].
-    destruct (jsonl_table mini_loads tbl MO mini_loads_lf c t ie U D) as [F R]. rewrite F, R. apply jsonl_spec_on_sound.
+    apply andb_true_iff. split.
+    + cbn [jsonl_iter]. rewrite U.
+      rewrite (reverse_table_all tbl MO c t); [|unfold jsonl_blocksize; lia|exact U]. apply text_mirrored.
+    + destruct (no_lone_cr t) eqn:D; [|apply jsonl_spec_on_outside; exact D].
+      destruct (jsonl_table mini_loads tbl MO mini_loads_lf c t ie U D) as [F R]. rewrite F, R. apply jsonl_spec_on_sound.
 Qed.
 
 Theorem verdict_sound : alts_ok gen_breaks = true ->
